@@ -298,6 +298,55 @@ func binomTwoSided(k, n int, p float64) float64 {
 	return v
 }
 
+// chi2sf is the survival function of the chi-square distribution:
+// Q(df/2, x/2), the regularised upper incomplete gamma function.
+func chi2sf(x float64, df int) float64 {
+	if x <= 0 || df <= 0 {
+		return 1
+	}
+	a := float64(df) / 2
+	x /= 2
+	lg, _ := math.Lgamma(a)
+	if x < a+1 {
+		// series for P(a,x)
+		ap, sum, del := a, 1/a, 1/a
+		for n := 0; n < 10000; n++ {
+			ap++
+			del *= x / ap
+			sum += del
+			if math.Abs(del) < math.Abs(sum)*1e-16 {
+				break
+			}
+		}
+		return 1 - sum*math.Exp(-x+a*math.Log(x)-lg)
+	}
+	// continued fraction for Q(a,x) (modified Lentz)
+	const tiny = 1e-300
+	b := x + 1 - a
+	c := 1 / tiny
+	d := 1 / b
+	h := d
+	for i := 1; i < 10000; i++ {
+		an := -float64(i) * (float64(i) - a)
+		b += 2
+		d = an*d + b
+		if math.Abs(d) < tiny {
+			d = tiny
+		}
+		c = b + an/c
+		if math.Abs(c) < tiny {
+			c = tiny
+		}
+		d = 1 / d
+		del := d * c
+		h *= del
+		if math.Abs(del-1) < 1e-16 {
+			break
+		}
+	}
+	return math.Exp(-x+a*math.Log(x)-lg) * h
+}
+
 func (c07) Run(t *testing.T, tape *core.Tape, rcx *RunCtx) *core.Result {
 	res := &core.Result{}
 	if core.Mix(uint64(rcx.Index), 0xc07)%8 == 3 { // one run in eight, spread evenly over the worker processes
@@ -673,8 +722,8 @@ func c07Proportion(t *testing.T, tape *core.Tape, rcx *RunCtx, res *core.Result)
 	}
 	// protein over a drawn subset of the usable letters, cycled
 	nl := len(x.usable)
-	if tape.Chance(50) {
-		nl = 1 + tape.Draw(min(nl, 4))
+	if tape.Chance(70) {
+		nl = 1 + tape.Draw(min(nl, 4)) // few letters: many draws per cell, small distortions become visible
 	}
 	perm := append([]string{}, x.usable...)
 	for i := len(perm) - 1; i > 0; i-- {
@@ -689,8 +738,8 @@ func c07Proportion(t *testing.T, tape *core.Tape, rcx *RunCtx, res *core.Result)
 	}
 	protein := string(pb)
 	calls := 50
-	if rcx.Tier == "thorough" {
-		calls = 500
+	if rcx.Tier == "thorough" || tape.Chance(6) {
+		calls = 500 // 10^6 draws: the depth at which a distortion of a fraction of a percentage point shows
 	}
 	// generator-fed variant: before every Optimize the caller asks the library's random
 	// protein generator for the same protein again (same length, same seed). That call
@@ -818,6 +867,52 @@ func c07Proportion(t *testing.T, tape *core.Tape, rcx *RunCtx, res *core.Result)
 				}
 			}
 		}
+	}
+	// joint goodness of fit over all tested amino acids (Pearson chi-square): many cells
+	// each off by a little are invisible cell by cell but not together
+	chi, df := 0.0, 0
+	if firstBad == "" && freePanic == nil {
+		var ls []string
+		for l := range counts {
+			ls = append(ls, l)
+		}
+		sort.Strings(ls)
+		for _, l := range ls {
+			n := 0
+			for _, k := range counts[l] {
+				n += k
+			}
+			if n < 1000 {
+				continue
+			}
+			es := x.eligibleSum(l)
+			ne := 0
+			var ts []string
+			for tr := range x.w[l] {
+				ts = append(ts, tr)
+			}
+			sort.Strings(ts)
+			for _, tr := range ts {
+				if !x.eligible(l, tr) {
+					continue
+				}
+				exp := float64(n) * float64(x.w[l][tr]) / float64(es)
+				d := float64(counts[l][tr]) - exp
+				chi += d * d / exp
+				ne++
+			}
+			if ne > 1 {
+				df += ne - 1
+			}
+		}
+	}
+	chiP := 1.0
+	if df > 0 {
+		chiP = chi2sf(chi, df)
+	}
+	if df > 0 && chiP < 1e-15 && worstP >= 1e-12 {
+		worstP = 0
+		worst = fmt.Sprintf("all tested cells together: Pearson chi-square %.1f with %d degrees of freedom, tail %.3g (least likely single cell: %s)", chi, df, chiP, worst)
 	}
 	sc.Cells, sc.Worst = cells, worst
 	res.Count("proportionality_cells_tested", int64(cells))
